@@ -197,6 +197,7 @@ def _p_lazy_self():
 
 register('C10', Probe('two instances referencing each other', _p_lazy_cycle, masks=dict(pop=['ref_cycle'], schema=['required_entity_ref'])))
 register('C10', Probe('instance referencing itself', _p_lazy_self, masks=dict(pop=['ref_cycle'])))
+_m('C10')['schema'].add('inverse')   # inverse attributes under the lazy loader are C11's subject
 
 
 # ------------------------------------------------------------------------------------------------ C08 probes (fixed graphs)
@@ -213,3 +214,13 @@ register('C08', Probe('multi-supertype subtype with one supertype absent', lambd
 register('C08', Probe('legal set with a two-supertype member and unconstrained siblings', lambda: (_g('pr_c08ms2', [
     ('r0', [], False, None), ('r1', [], False, None), ('a', ['r0'], False, None), ('b', ['r1'], False, None), ('c', ['a'], False, None),
     ('d', ['a', 'r1'], False, None)]), [])))
+
+
+def _p_lazy_plain():
+    s = M.Schema('pr_lztxt', [], [M.Entity('n', attrs=[M.Attr('nxt', M.ENT('n'), True), M.Attr('v', M.INT()), M.Attr('s', M.STR())])])
+    return s, [Inst(1, [('N', [('null',), ('int', 1), ('str', 'a')])]), Inst(2, [('N', [('ref', 1), ('int', 2), ('str', '#1 ( ;')])])]
+
+
+register('C10', Probe('one token per line (newline between keyword and parenthesis)', _p_lazy_plain, variant='lines', masks=dict(variants=['lines'])))
+register('C10', Probe('comment on its own line between two instances', _p_lazy_plain, variant='cmt_between',
+                      masks=dict(variants=['cmt_between', 'cmt_structural', 'cmt_before_top'])))
